@@ -8,6 +8,7 @@ import (
 	"sort"
 	"sync"
 	"sync/atomic"
+	"time"
 
 	tally "github.com/uber-go/tally/v4"
 
@@ -25,6 +26,9 @@ func runC05(c *mon.Ctx) {
 		c05KeyFn(c, r.Fork(2))
 		if i%4 == 2 {
 			aliasLengthCase(c, r.Fork(12), "delivered-under-other-identity/alias", true)
+		}
+		if i%4 == 3 {
+			invalidTwinsCase(c, r.Fork(13), "delivered-under-other-identity/invalid-bytes", true)
 		}
 	})
 }
@@ -96,7 +100,34 @@ func mutateProg(r *mon.Rand, p dprog, pool *strPool) dprog {
 			tagIdx = append(tagIdx, i)
 		}
 	}
-	switch r.Intn(7) {
+	switch r.Intn(8) {
+	case 7: // a byte that is not valid UTF-8 appended to a value, a key or a subscope name: strings that differ only in such bytes are different strings
+		bad := []string{"\xff", "\xfe", "\xc0", "\x80"}[r.Intn(4)]
+		if len(tagIdx) > 0 && r.Chance(2, 3) {
+			i := tagIdx[r.Intn(len(tagIdx))]
+			ks := make([]string, 0, len(q[i].Tags))
+			for k := range q[i].Tags {
+				ks = append(ks, k)
+			}
+			sort.Strings(ks)
+			k := ks[r.Intn(len(ks))]
+			if r.Bool() {
+				q[i].Tags[k] += bad
+				return q
+			}
+			if _, clash := q[i].Tags[k+bad]; !clash {
+				q[i].Tags[k+bad] = q[i].Tags[k]
+				delete(q[i].Tags, k)
+				return q
+			}
+		}
+		for i, st := range q {
+			if !st.IsTag {
+				q[i].Sub += bad
+				return q
+			}
+		}
+		return append(q, dstep{IsTag: true, Tags: map[string]string{"k" + bad: "v"}})
 	case 6: // one key renamed in its first byte ({"ak":v} -> {"bk":v})
 		if len(tagIdx) > 0 {
 			i := tagIdx[r.Intn(len(tagIdx))]
@@ -407,6 +438,12 @@ func c05Identity(c *mon.Ctx, r *mon.Rand) {
 			// metric identity on this scope
 			if n.sc.Counter("m") != n.sc.Counter("m") || n.sc.Gauge("m") != n.sc.Gauge("m") || n.sc.Timer("m") != n.sc.Timer("m") || n.sc.Histogram("m", nil) != n.sc.Histogram("m", nil) {
 				c.Violation("metric-split/"+kind, map[string]interface{}{"why": "asking twice for the same kind and name returned different metrics", "scope": n.where, "case": desc})
+			}
+			// a histogram is identified by its name, whatever specification later
+			// requests for that name carry (value, duration, none)
+			hk := n.sc.Histogram("mk", tally.ValueBuckets{1, 2})
+			if n.sc.Histogram("mk", tally.DurationBuckets{time.Second}) != hk || n.sc.Histogram("mk", tally.ValueBuckets{1, 2}) != hk || n.sc.Histogram("mk", nil) != hk {
+				c.Violation("metric-split/"+kind, map[string]interface{}{"why": "asking for an existing histogram name with another bucket specification (duration instead of value buckets, then value buckets again, then none) returned a different histogram", "scope": n.where, "case": desc})
 			}
 			if n.sc.Counter("m") == n.sc.Counter("m'") || n.sc.Gauge("m") == n.sc.Gauge("m'") || n.sc.Timer("m") == n.sc.Timer("m'") || n.sc.Histogram("m", nil) == n.sc.Histogram("m'", nil) {
 				c.Violation("metric-merge/"+kind, map[string]interface{}{"why": "different names returned the same metric", "scope": n.where, "case": desc})
